@@ -3,7 +3,18 @@
 (* Every behaviour of GattDecl builds one declaration; when it is finished it is printed   *)
 (* as <<"DECL", json>> (normalized form; checks/_gatt.py converts it to the input format   *)
 (* of tools/gen_server.py - a pure change of notation).                                    *)
+(* TLC's simulator computes all successors of a state before it picks one; the 10^4        *)
+(* characteristic shapes are therefore drawn with RandomElement (seeded by -seed) instead  *)
+(* of being enumerated: DeclGen.cfg has  ShapeChoices <- RandomShapes.                     *)
 EXTENDS GattDecl, Json
+
+MinGap == CHOOSE g \in Gaps : \A h \in Gaps : g <= h
+RandomShapes ==
+    { [wide |-> w, id |-> i, vkind |-> v, size |-> z, cccd |-> IF v = "fixed" THEN "none" ELSE c, named |-> n,
+       fix |-> f, gap |-> IF f = "none" THEN MinGap ELSE g, enc |-> e] :
+      w \in {RandomElement(BOOLEAN)}, i \in {RandomElement(CharIds)}, v \in {RandomElement(VKinds)},
+      z \in {RandomElement(Sizes)}, c \in {RandomElement(Cccds)}, n \in {RandomElement(BOOLEAN)},
+      f \in {RandomElement({"none", "none", "handle", "handles"})}, g \in {RandomElement(Gaps)}, e \in {RandomElement(EncOpts)} }
 
 GSpec == Spec
 Emit == Finished => PrintT(<<"DECL", ToJson(d)>>)
